@@ -9,6 +9,7 @@ state (ρ, e, D) = (2, 3/2, 7/10):  ∂F[2]/∂ρ = +3/28 ≈ 0.1071,  DF[2,0] =
 of state (the entry does not involve it).
 -/
 import EPV.Lemmas.C16ResDefs
+import EPV.Lemmas.Bridge.EosTac
 
 set_option linter.all false
 
@@ -21,15 +22,12 @@ theorem pressureS0_F2_hasDerivAt_rho (s : EOS) (ic : NohIC) (ρ x D : ℝ) (hic 
     HasDerivAt (fun r => PressureS0.F s ic r x D 2)
       (ResPressureAbsS0_res.L4.F2_drho (PressureS0.pres s ic ρ x) ρ x D) ρ := by
   obtain ⟨hu, hr0, hP0, hm⟩ := hic
-  have k0 : ¬ (0 ≤ ic.u_0) := not_le.mpr hu
-  have k1 : ¬ (ic.rho_0 ≤ 0) := not_le.mpr hr0
-  have k2 : ¬ (ic.P_0 < 0) := not_lt.mpr hP0
   set p := PressureS0.pres s ic ρ x with hp
   have hc : HasDerivAt (fun r => ResPressureAbsS0_res.L4.F2 p r x D) (ResPressureAbsS0_res.L4.F2_drho p ρ x D) ρ := by
-    apply ResPressureAbsS0_res.L4.F2_hasDerivAt_rho <;> assumption
+    epv_eos_cert ResPressureAbsS0_res.L4.F2_hasDerivAt_rho p ρ x D
   have hev : (fun r => PressureS0.F s ic r x D 2) =ᶠ[nhds ρ] fun r => ResPressureAbsS0_res.L4.F2 p r x D := by
     filter_upwards [isOpen_ne.mem_nhds hρ] with r hr
-    simp only [PressureS0.F, hp, epv_c16, epv_tree, epv_cond, epv_leaf, hr, k0, k1, k2, if_false, Matrix.cons_val]
+    simp only [PressureS0.F, hp] <;> epv_eos_res_eq
   exact hc.congr_of_eventuallyEq hev
 
 /-- the initial state of the witness is admissible for the planar residual -/
